@@ -168,11 +168,14 @@ fn q_h14trk__aac_every_type_freq_channels() {
     std::mem::forget(track);
 }
 
+/// (excluded, x_: decoding an esds whose AudioSpecificConfig bits are symbolic does not finish --
+/// the wire leg for the audio parameters is C05's h05enc esds (all values) + h05dec esds (concrete
+/// configurations))
 /// ... and through the wire: the mp4a/esds the writer builds is encoded and decoded with the real
 /// codecs and the accessors' fields are compared (object types whose number fits the 5-bit field).
 #[kani::proof]
 #[kani::unwind(7)]
-fn q_h14wire__mp4a_esds_every_type_freq_channels() {
+fn x_h14wire__mp4a_esds_every_type_freq_channels() {
     let (aac, p, f, c) = any_aac();
     let bitrate = aac.bitrate;
     let v = Mp4aBox::new(&aac);
@@ -370,7 +373,7 @@ fn q_h14dur__k1() {
 }
 #[kani::proof]
 #[kani::unwind(5)]
-fn q_h14dur__k2() {
+fn t_h14dur__k2() {
     h14_dur::<2>()
 }
 #[kani::proof]
